@@ -8,6 +8,7 @@
 #include <cstdlib>
 #include <sstream>
 #include <random>
+#include <vector>
 
 using namespace ipr;
 
@@ -38,6 +39,33 @@ static void construction_program(iprv::Zoo& z, unsigned seed, bool print)
    }
    impl::General_substitution* gs = lex.make_general_substitution();
    (void) gs;
+   // the string arena: enough text to roll over several 1 MiB pools in one life, words around the size at which a word gets
+   // a pool of its own, and spellings that come from buffers which die right after the call
+   for (int i = 0; i < 45; ++i) {
+      std::u8string w(60000 + rng() % 9000, char8_t('a' + i % 26));
+      w += char8_t('0' + i % 10);
+      lex.get_string(w);
+   }
+   static const std::size_t edge[] = { 1048560, 1048568, 1048569, 1048572, 1048575, 1048576, 1048577, 1048584 };
+   {
+      std::u8string w(edge[seed % 8], u8'e');
+      const ipr::String& s = lex.get_string(w);
+      if (s.characters().size() != w.size() or s.characters().back() != u8'e') std::printf("edge-word-damaged length=%zu\n", w.size());
+   }
+   std::vector<const ipr::Identifier*> transient;
+   for (int i = 0; i < 30; ++i) {
+      std::u8string* w = new std::u8string(u8"transient_name_");
+      *w += char8_t('a' + i % 26); *w += char8_t('a' + (i / 26) % 26);
+      transient.push_back(&lex.get_identifier(*w));
+      delete w;                                           // the spelling's storage is gone; the node must own its characters
+   }
+   for (auto id : transient) if (id->string().size() != 17 or id->string().characters()[0] != u8't') std::printf("transient-name-damaged\n");
+   // every unit names its global namespace with a node of ITS OWN lexicon (read it: a node of a dead lexicon is dead storage)
+   if (auto id = util::view<ipr::Identifier>(z.unit.global_namespace().name())) {
+      if (id->string().size() != 0) std::printf("global-namespace-named\n");
+      if (id != &lex.get_identifier(u8"")) std::printf("global-namespace-name-foreign\n");
+   }
+   else std::printf("global-namespace-name-not-an-identifier\n");
    if (print) {
       std::ostringstream os;
       ipr::Printer pp { lex, os };
